@@ -362,16 +362,19 @@ def replaceValue (input pattern replacement flags : Value) : Option Value :=
     | .str f =>
       let (kept, q) := replaceFlags f.toList
       if q then
-        -- every character of the pattern is escaped: any non-empty pattern without
-        -- alphanumerics denotes itself (an escaped letter or digit is a class or an error)
-        if !pat.isEmpty && pat.all (fun c => !c.isAlphanum && c.toNat < 128 && !isWhite c) && !kept.contains 'i' then
+        -- `regex::escape(pattern)` (fix 4bf7e70): every character stands for itself, so any
+        -- non-empty pattern is a literal (letter case matters unless `i` is kept)
+        if !pat.isEmpty && !kept.contains 'i' then
           some (run pat)
         else none
       else if isLiteralPattern pat && !(kept.contains 'i' && pat.any Char.isAlpha) && pat.all (fun c => c.toNat < 128) then
         some (run pat)
       else if isLiteralPattern pat && !kept.contains 'i' then some (run pat)
       else none
-    | _ => if isLiteralPattern pat then some (run pat) else none
+    -- no flags: the dispatchers pass null for an absent parameter
+    | .null => if isLiteralPattern pat then some (run pat) else none
+    -- flags that are neither a string nor absent are outside the domain (fix 7f1aa2d)
+    | _ => some .null
   | .str _, .str _, _ => some .null
   | .str _, _, _ => some .null
   | _, _, _ => some .null
@@ -380,23 +383,30 @@ def replaceValue (input pattern replacement flags : Value) : Option Value :=
 def core_replace (input pattern replacement flags : Value) : Option (Outcome Value) :=
   (replaceValue input pattern replacement flags).map .ok
 
-/-- `core::matches` (`core.rs:514`), literal patterns without flags. -/
+/-- `core::matches` (`core.rs:514`), literal patterns without flags: the flags are absent (the
+dispatchers pass null) or the empty string; non-empty flags reach the `regex` crate (not
+modelled); flags that are not a string are outside the domain (fix 7487539). -/
 def matchesValue (input pattern flags : Value) : Option Value :=
   match input, pattern with
   | .str s, .str p =>
+    let noFlags : Option Value :=
+      if isLiteralPattern p.toList then some (.bool (findSub p.toList s.toList).isSome) else none
     match flags with
-    | .str _ => none
-    | _ => if isLiteralPattern p.toList then some (.bool (findSub p.toList s.toList).isSome) else none
+    | .str f => if f.toList.isEmpty then noFlags else none
+    | .null => noFlags
+    | _ => some .null
   | _, _ => some .null
 
 def core_matches (input pattern flags : Value) : Option (Outcome Value) :=
   (matchesValue input pattern flags).map .ok
 
-/-- `core::split` (`core.rs:907`), literal delimiters. -/
+/-- `core::split` (`core.rs:907`), literal delimiters; a delimiter that matches the empty string
+(among the literals: the empty delimiter) gives null. -/
 def splitValue (input delimiter : Value) : Option Value :=
   match input, delimiter with
   | .str s, .str d =>
-    if isLiteralPattern d.toList then
+    if d.toList.isEmpty then some .null
+    else if isLiteralPattern d.toList then
       some (.list ((splitLit d.toList (s.toList.length + 1) [] s.toList).map (fun cs => .str (String.ofList cs))))
     else none
   | _, _ => some .null
